@@ -100,6 +100,11 @@ Next == /\ Len(hist) < MaxOps
         /\ \/ \E c \in C, sups \in SeqsUpTo(C, MaxSupers), cfg \in Cfgs : DefClass(c, sups, cfg)
            \/ \E c \in C : Make(c)
            \/ \E c \in C : DefMeth(c)
+\* order independence on a fixed shape: the chain ca <- cb <- cc (and the diamond cd over cb and cc when NC = 4), classes and
+\* methods defined in every order the names allow; the same states are reached, the observations must be the same
+ChainSup(c) == IF Idx(c) = 1 THEN <<>> ELSE IF Idx(c) = 4 THEN <<AllC[2], AllC[3]>> ELSE <<AllC[Idx(c) - 1]>>
+ChainNext == /\ Len(hist) < MaxOps
+             /\ \E c \in C : DefClass(c, ChainSup(c), "s") \/ DefMeth(c)
 ExpectOf(t, me, lo) == [c \in {d \in C : t[d].def} |->
              IF Ready(t, c)
              THEN [ready |-> TRUE, prec |-> Prec(t, c), s0 |-> S0(t, c), u0 |-> U0(t, c), s1 |-> S1(t, c), u1 |-> U1(t, c),
